@@ -584,7 +584,7 @@ def history_checks(seed, tier):
         return sim
     def fresh_from(sim, pt, dt):
         s2 = rebound.Simulation()
-        s2.G = sim.G; s2.t = sim.t
+        s2.G = sim.G; s2.t = sim.t; s2.softening = sim.softening
         for p in sim.particles:
             s2.add(m=p.m, x=p.x, y=p.y, z=p.z, vx=p.vx, vy=p.vy, vz=p.vz, r=p.r, hash=p.hash)
         s2.collision = sim.collision
@@ -592,6 +592,10 @@ def history_checks(seed, tier):
             s2.collision_resolve = "merge"
         if pt is not None:
             configure(s2, pt); s2.dt = dt
+            for f_ in ("eps_abs", "eps_rel", "min_dt", "max_dt"):
+                setattr(s2.ri_bs, f_, getattr(sim.ri_bs, f_))
+            for f_ in ("epsilon", "min_dt", "adaptive_mode"):
+                setattr(s2.ri_ias15, f_, getattr(sim.ri_ias15, f_))
         return s2
     def diff(a, b):
         if a.N != b.N:
@@ -623,11 +627,114 @@ def history_checks(seed, tier):
         ps[i].r = rr; ps[j].r = rr
     inter = [("remove index 1 (first planet)", rm_index(1)), ("remove index 2 (middle)", rm_index(2)), ("remove index 4 (last)", rm_index(4)),
              ("remove by hash", rm_hash), ("add a particle", add_one), ("merging collision", arm_merge)]
+    # ---- more histories (act(sim, pt, dt) may return a replacement object); the documented protocol is respected: synchronized state,
+    #      recalculation flag raised after every edit
+    def go(sim, pt, nsteps, dt_):
+        if pt["integrator"] in ("ias15", "bs"):
+            sim.integrate(sim.t + nsteps * dt_, exact_finish_time=1)
+        else:
+            sim.steps(nsteps)
+        sim.synchronize()
+    def rm_add_same_N(sim, pt, dt_):
+        sim.remove(index=2); sim.add(m=3e-5, a=8.0, e=0.03, f=2.0, hash="replacement"); set_recalc(sim)
+    def replace_in_place(sim, pt, dt_):
+        p = sim.particles[2]; p.x *= 1.01; p.vy *= 0.99; p.m *= 1.5; set_recalc(sim)
+    ALT = {"whfast": [{"corrector": 5}, {"coordinates": 3}, {"kernel": 2}], "saba": [{"type": 0x3}, {"type": 0x201}], "eos": [{"phi0": 5}, {"n": 3}],
+           "janus": [{"order": 6}], "mercurius": [{"safe_mode": 1}], "leapfrog": [], "trace": [], "ias15": [], "bs": []}
+    def option_round_trip(k_):
+        def f(sim, pt, dt_):
+            alts = ALT[pt["integrator"]]
+            if pt["integrator"] == "whfast" and pt.get("coordinates"):       # only valid combinations (correctors / kernels need Jacobi)
+                alts = [{"coordinates": 0}, {"coordinates": 2}]
+            elif pt["integrator"] == "whfast" and pt.get("kernel"):
+                alts = [{"kernel": 0}, {"corrector": 11}, {"kernel": 1}]
+            if k_ >= len(alts):
+                raise RuntimeError("skip: no alternative option")
+            configure(sim, dict(pt, **alts[k_])); sim.dt = dt_; set_recalc(sim)
+            go(sim, dict(pt, **alts[k_]), 4, dt_)
+            configure(sim, pt); sim.dt = dt_; set_recalc(sim)
+        return f
+    def integrator_round_trip(other):
+        def f(sim, pt, dt_):
+            if other == pt["integrator"]:
+                raise RuntimeError("skip: same integrator")
+            opt = dict(integrator=other, type=6, order=4, phi0=1, phi1=1, n=2)
+            configure(sim, opt); sim.dt = dt_; set_recalc(sim)
+            go(sim, opt, 4, dt_)
+            configure(sim, pt); sim.dt = dt_; set_recalc(sim)
+        return f
+    def change_dt_G(sim, pt, dt_):
+        sim.dt = 0.5 * dt_; sim.G = 1.05 * sim.G; sim.softening = 1e-3; set_recalc(sim)
+    def copy_object(sim, pt, dt_):
+        return sim.copy()
+    def save_restore(sim, pt, dt_):
+        import tempfile
+        fn = os.path.join(tempfile.gettempdir(), "c01_hist_%d_%d.bin" % (os.getpid(), rng.randrange(1 << 30)))
+        sim.save_to_file(fn, delete_file=True)
+        try:
+            return rebound.Simulation(fn)
+        finally:
+            try: os.remove(fn)
+            except OSError: pass
+    def error_once(sim, pt, dt_):
+        bad_ = {"whfast": {"corrector": 4}, "saba": {"type": 0x77}, "janus": {"order": 3}}.get(pt["integrator"])
+        if bad_ is None:
+            raise RuntimeError("skip: no invalid option known")
+        configure(sim, dict(pt, **bad_))
+        for _ in range(3):
+            try:
+                sim.step()
+            except Exception:
+                pass
+        configure(sim, pt); sim.dt = dt_
+        for _ in range(4):
+            try:
+                sim.synchronize(); break
+            except Exception:
+                pass
+        set_recalc(sim)
+    def bs_options_changed(sim, pt, dt_):
+        sim.ri_bs.max_dt = 0.004; sim.ri_bs.min_dt = 1e-6; sim.ri_bs.eps_rel = 1e-11; sim.ri_bs.eps_abs = 1e-11
+        sim.ri_ias15.epsilon = 1e-7; sim.ri_ias15.min_dt = 1e-5
+        if pt["integrator"] not in ("ias15", "bs", "trace"):
+            ode_unused = None
+    inter2 = [("remove + add (N unchanged)", rm_add_same_N), ("replace a particle in place", replace_in_place),
+              ("option switched and switched back (1)", option_round_trip(0)), ("option switched and switched back (2)", option_round_trip(1)),
+              ("option switched and switched back (3)", option_round_trip(2)),
+              ("integrator -> ias15 -> back", integrator_round_trip("ias15")), ("integrator -> whfast -> back", integrator_round_trip("whfast")),
+              ("integrator -> janus -> back", integrator_round_trip("janus")), ("integrator -> bs -> back", integrator_round_trip("bs")),
+              ("dt halved, G and softening changed", change_dt_G), ("copy of the object", copy_object), ("save + restore", save_restore),
+              ("error path taken once", error_once), ("BS / IAS15 step-size options changed", bs_options_changed)]
     dt = 0.02
     with _w.catch_warnings():
         _w.simplefilter("ignore")
         for fname, pt in fams:
             adaptive = pt["integrator"] in ("ias15", "bs")
+            for iname, act2 in inter2:
+                progress("history/%s/%s" % (fname, iname), system_seed=seed, options=dict(pt, dt=dt))
+                try:
+                    a = build(); configure(a, pt); a.dt = dt
+                    go(a, pt, 7, dt)
+                    r_ = act2(a, pt, dt)
+                    if r_ is not None:
+                        a = r_
+                    a.synchronize()
+                    dta = a.dt if not adaptive else dt
+                    b = fresh_from(a, pt, a.dt)
+                    go(a, pt, 9, dta); go(b, pt, 9, dta)
+                    d1 = diff(a, b)
+                    c = fresh_from(a, pt, a.dt)
+                    go(a, pt, 5, dta); go(c, pt, 5, dta)
+                    d2 = diff(a, c)
+                    tol = 1e-9 if adaptive else 1e-11
+                    ok = d1 <= tol and d2 <= tol and abs(a.t - c.t) <= 1e-12 * max(1.0, abs(a.t)) and all(p.x == p.x for p in a.particles)
+                    out.append({"name": "history/%s/%s" % (fname, iname), "system_seed": seed, "errors": [d1, d2], "N_after": a.N, "ok": ok,
+                                "options": dict(pt, dt=dt, steps=[7, 9, 5])})
+                except RuntimeError as ex_:
+                    if "skip:" not in str(ex_):
+                        out.append({"name": "history/%s/%s" % (fname, iname), "system_seed": seed, "errors": [float("nan")], "ok": False, "exception": repr(ex_)})
+                except Exception as ex_:
+                    out.append({"name": "history/%s/%s" % (fname, iname), "system_seed": seed, "errors": [float("nan")], "ok": False, "exception": repr(ex_)})
             for iname, act in inter:
                 # merging collision: only where the merge time is determined by the state alone: fixed-step schemes that are synchronized
                 # after every step (safe_mode 1).  Adaptive schemes detect the overlap after a history-dependent first step, MERCURIUS only
